@@ -35,7 +35,9 @@ pub struct Sc {
 pub struct C06;
 
 const BASES: [&str; 6] = ["foo", "bar", "foo-bar", "fo", "baz", "f"];
-const VERSIONS: [&str; 40] = [
+const VERSIONS: [&str; 46] = [
+    "1234567890123456789", "1234567890123456788", "0000000000000000001", "999999999999999999", "9223372036854775806",
+    "1.1234567890123456789",
     "1.0", "1", "1.0.0", "1.00", "1.0nb1", "1.0nb0", "1.0nb", "1nb1", "1.0nb2", "1.0alpha", "1.0alpha1", "1.0beta",
     "1.0rc1", "1.0rc", "1.0pl1", "1.0pl", "1.0a", "1.0b", "1.0A", "1a", "2.0", "2", "0.9", "0", "3", "3.0", "10.0",
     "1.10", "1.9", "1.0_1", "1_0", "1.0.", "", "1..0", "01.0", "1.0.0.0.1", "2.0beta4nb7", "20240101", "1.0+x", "1.0~",
@@ -83,6 +85,61 @@ fn version_of(name: &str) -> &str {
         Some(i) => &name[i + 1..],
         None => "",
     }
+}
+
+/// Independent model of the dewey rule on the *numeric sub-domain*: versions made
+/// only of digit runs (each below 2^63), '.', '_' and one trailing "nb<digits>".
+/// On this sub-domain the rule is unambiguous (digit run = its value, '.' and
+/// '_' = 0, missing components = 0, the revision decides last) and the pinned
+/// tree agrees with it, so it can be used as an oracle without claiming C01.
+fn numeric_model(v: &str) -> Option<(Vec<u128>, u128)> {
+    let (body, rev) = match v.find("nb") {
+        Some(i) => {
+            let r = &v[i + 2..];
+            if !r.bytes().all(|c| c.is_ascii_digit()) || r.len() > 18 {
+                return None;
+            }
+            (&v[..i], if r.is_empty() { 0 } else { r.parse::<u128>().ok()? })
+        }
+        None => (v, 0),
+    };
+    let b = body.as_bytes();
+    let mut comps = Vec::new();
+    let mut i = 0;
+    while i < b.len() {
+        if b[i].is_ascii_digit() {
+            let mut j = i;
+            while j < b.len() && b[j].is_ascii_digit() {
+                j += 1;
+            }
+            let n: u128 = body[i..j].parse().ok()?;
+            if j - i > 30 || n >= (i64::MAX as u128) {
+                return None;
+            }
+            comps.push(n);
+            i = j;
+        } else if b[i] == b'.' || b[i] == b'_' {
+            comps.push(0);
+            i += 1;
+        } else {
+            return None;
+        }
+    }
+    Some((comps, rev))
+}
+
+fn numeric_cmp(a: &str, b: &str) -> Option<std::cmp::Ordering> {
+    let (ca, ra) = numeric_model(version_of(a))?;
+    let (cb, rb) = numeric_model(version_of(b))?;
+    let n = ca.len().max(cb.len());
+    for i in 0..n {
+        let x = ca.get(i).copied().unwrap_or(0);
+        let y = cb.get(i).copied().unwrap_or(0);
+        if x != y {
+            return Some(x.cmp(&y));
+        }
+    }
+    Some(ra.cmp(&rb))
 }
 
 /// Is version(a) strictly greater than version(b), in the order the library
@@ -190,6 +247,31 @@ fn merge_step(
         r2
     );
     if ma && mb {
+        // on the numeric sub-domain the winner is fixed by the dewey rule itself
+        if let Some(ord) = numeric_cmp(a, b) {
+            ctx.probe("numeric-subdomain-pair");
+            let want = match ord {
+                std::cmp::Ordering::Greater => a,
+                std::cmp::Ordering::Less => b,
+                std::cmp::Ordering::Equal => {
+                    if a <= b {
+                        a
+                    } else {
+                        b
+                    }
+                }
+            };
+            ensure!(
+                r == Some(want),
+                "winner-differs-from-dewey-rule",
+                "{}: best_match({:?}, {:?}) = {:?}; under the dewey rule (digit runs by value, '.'/'_' = 0, zero padding, nb revision last; ties to the smaller name) the winner is {:?}",
+                what,
+                a,
+                b,
+                r,
+                want
+            );
+        }
         if !a.contains('-') || !b.contains('-') {
             ctx.probe("both-match-one-without-dash");
         }
@@ -458,6 +540,7 @@ impl Property for C06 {
         vec![
             "the reference maximum uses the version order the library exposes through single-bound patterns (its agreement with pkg_install is C01, not claimed)",
             "candidate versions contain no '{', '}', '<' or '>'",
+            "on the numeric sub-domain (digit runs below 2^63, '.', '_', one trailing nb<digits>) the winner of each pair is additionally compared with an independent model of the dewey rule",
         ]
     }
     fn expected_probes(&self) -> Vec<&'static str> {
@@ -469,6 +552,7 @@ impl Property for C06 {
             "exactly-one-matches",
             "duplicate-delivered-after-beaten",
             "both-match-one-without-dash",
+            "numeric-subdomain-pair",
         ]
     }
 }
